@@ -32,6 +32,16 @@ CLAIMED = {
              "(publish/subscribe/unsubscribe/disconnect property checks, value ranges) is checked at client level, not proved here.",
         technique="Lean 4 theorems (induction over the string, omega on byte arithmetic, kernel-evaluated 16-bit mask lemma) + translator for the character rule + exhaustive/small-scope differential correspondence",
         design="§5 C16", engine="h_utf8"),
+    "C17": dict(
+        text="Proof: a strict MQTT 5 decoder is written in Lean from the standard (Spec.Wire.decode: fixed-header flags, minimal variable byte integers, Remaining Length = actual size, "
+             "only properties the packet type allows, non-repeatable ones at most once, no trailing bytes) and for every well-formed packet value of CONNECT (incl. Will, credentials), PUBLISH, "
+             "PUBACK/PUBREC/PUBREL/PUBCOMP, SUBSCRIBE, UNSUBSCRIBE, PINGREQ, DISCONNECT, AUTH: Spec.decode (Enc.encode p) = some p; and for all packet values the declared Remaining Length "
+             "equals the encoded body length (byte_size/encode agreement per combinator). The encoder model is tied to the code byte for byte on generated packets built from the library's own types; "
+             "the real bytes are also decoded by an independent Python decoder and compared with the supplied values. Property table and per-packet property lists are translated from the headers on every run.",
+        note=COMMON_NOTE + "WF p is an explicit predicate (field ranges, string lengths <= 65535, body <= 268435455, allowed/non-repeated properties). That a request accepted by the API yields WF "
+             "packets (validated_is_WF) is checked at client level, not proved here. AUTH exchange content (authenticator data) is opaque.",
+        technique="Lean 4 round-trip theorems against a strict spec decoder + translators (property table) + byte-exact differential correspondence with the real encoders under ASan",
+        design="§5 C17", engine="h_codec"),
     "C08": dict(
         text="Refinement proof: the interval allocator model refines a set of free identifiers (allocate = lowest free id, non-zero, removed; free = insert; "
              "representation invariant kept), lifted by induction over every legal history of allocations and releases of any length (uniqueness among "
@@ -89,6 +99,7 @@ def main():
             {"name": "h_rc", "path": "/verif/harness/h_rc.cpp", "serves_properties": ["C20"], "kind_free_text": "real to_reason_code under ASan, exhaustive"},
             {"name": "h_order", "path": "/verif/harness/h_order.cpp", "serves_properties": ["C06"], "kind_free_text": "real write_req::operator< and std::stable_sort over vector<write_req>"},
             {"name": "h_utf8", "path": "/verif/harness/h_utf8.cpp", "serves_properties": ["C16"], "kind_free_text": "real UTF-8 / topic validators on exact-size heap copies under ASan"},
+            {"name": "h_codec", "path": "/verif/harness/h_codec.cpp", "serves_properties": ["C17"], "kind_free_text": "real message encoders (and decoders) on textual packet descriptions"},
             {"name": "h_pid", "path": "/verif/harness/h_pid.cpp", "serves_properties": ["C08"], "kind_free_text": "real packet_id_allocator, alloc/free scripts, state dump"},
             {"name": "h_mutex", "path": "/verif/harness/h_mutex.cpp", "serves_properties": ["C11"], "kind_free_text": "real async_mutex with per-waiter cancellation slots on a polled io_context"},
         ],
